@@ -116,19 +116,19 @@ type Step struct {
 
 // Scenario is a self-contained run.
 type Scenario struct {
-	Name    string   `json:"name"`
-	Mode    string   `json:"mode,omitempty"`   // at (default) | xa | bare
-	DB      string   `json:"db,omitempty"`     // schema name (default: derived from Name); a run-unique suffix is added unless FixedDB
+	Name string `json:"name"`
+	Mode string `json:"mode,omitempty"` // at (default) | xa | bare
+	DB   string `json:"db,omitempty"`   // schema name (default: derived from Name); a run-unique suffix is added unless FixedDB
 	// FixedDB: the schema name is used as is (several scenarios of one process then share a DATABASE NAME, as several data
 	// sources with equally named schemas do); the run-unique part goes into the host address instead
 	FixedDB bool `json:"fixed_db,omitempty"`
 	// AutoIncStep: auto_increment_increment of the scenario's server (0/1 = 1)
-	AutoIncStep int `json:"auto_inc_step,omitempty"`
-	Params  string   `json:"params,omitempty"` // DSN parameters (default DefaultParams)
-	Version string   `json:"version,omitempty"`
-	Config  Config   `json:"config"`
-	Setup   []string `json:"setup"` // DDL + initial rows, run on the bare database before the journal starts (undo_log is created automatically)
-	Steps   []Step   `json:"steps"`
+	AutoIncStep int      `json:"auto_inc_step,omitempty"`
+	Params      string   `json:"params,omitempty"` // DSN parameters (default DefaultParams)
+	Version     string   `json:"version,omitempty"`
+	Config      Config   `json:"config"`
+	Setup       []string `json:"setup"` // DDL + initial rows, run on the bare database before the journal starts (undo_log is created automatically)
+	Steps       []Step   `json:"steps"`
 }
 
 // ---------------------------------------------------------------- trace
